@@ -198,41 +198,151 @@ def loop_body_entry(f):
     return None
 
 
+def _sym_cond(env, n):
+    """Condition tree with bit-vector leaves: ('cmp', op, va, vb) | ('and'|'or', x, y) | ('not', x) | ('val', v)."""
+    n = ex.deref(n)
+    k = n.get("k")
+    if k == "bin" and n["op"] in ("&&", "||"):
+        return ("and" if n["op"] == "&&" else "or", _sym_cond(env, n["l"]), _sym_cond(env, n["r"]))
+    if k == "un" and n["op"] == "!":
+        return ("not", _sym_cond(env, n["e"]))
+    if k == "bin" and n["op"] in ("==", "!=", "<", ">", "<=", ">="):
+        return ("cmp", n["op"], env.ev(n["l"]), env.ev(n["r"]))
+    return ("val", env.ev(n))
+
+
+def _cond_deps(t):
+    if t[0] in ("and", "or"):
+        return _cond_deps(t[1]) | _cond_deps(t[2])
+    if t[0] == "not":
+        return _cond_deps(t[1])
+    vs = t[2:] if t[0] == "cmp" else t[1:]
+    d = set()
+    for v in vs:
+        for x in v[0]:
+            d |= set(bits.deps_of(x))
+    return d
+
+
+def _cond_value(t, asg):
+    if t[0] == "and":
+        return _cond_value(t[1], asg) and _cond_value(t[2], asg)
+    if t[0] == "or":
+        return _cond_value(t[1], asg) or _cond_value(t[2], asg)
+    if t[0] == "not":
+        return not _cond_value(t[1], asg)
+
+    def conc(v):
+        out = 0
+        for j, x in enumerate(v[0]):
+            if x == 1:
+                out |= 1 << j
+            elif x == 0:
+                continue
+            elif isinstance(x, frozenset):
+                raise bits.Unsupported("bit not determined by the instruction bytes")
+            elif x[0] == "~":
+                if x[1] not in asg:
+                    raise bits.Unsupported("free bit %s" % (x[1],))
+                out |= (1 - asg[x[1]]) << j
+            else:
+                if x not in asg:
+                    raise bits.Unsupported("free bit %s" % (x,))
+                out |= asg[x] << j
+        return out
+    if t[0] == "val":
+        return conc(t[1]) != 0
+    a, b = conc(t[2]), conc(t[3])
+    return {"==": a == b, "!=": a != b, "<": a < b, ">": a > b, "<=": a <= b, ">=": a >= b}[t[1]]
+
+
+def opc_generic(f, arch, ref):
+    """Evaluate `this instruction is converted` as a function of the instruction bits: conjunction of the branch
+    conditions on each path from the loop body to the first block that stores into the buffer."""
+    start = loop_body_entry(f)
+    if start is None:
+        raise AnalysisBroken("%s: loop not recognised" % arch)
+    order = shortest_path(f, start, lambda b: has_store(f, b))
+    if order is None:
+        raise AnalysisBroken("%s: no store into the buffer" % arch)
+    tgt = order[-1]
+    # all acyclic block paths start -> tgt
+    paths = []
+
+    def dfs(b, blocks, lits, seen):
+        if b == tgt:
+            paths.append((blocks + [b], list(lits)))
+            return
+        if b in seen or len(paths) > 32:
+            return
+        blk = f.blocks[b]
+        t = blk.term
+        if t and "cond" in t and len(blk.succs) == 2:
+            for s_, tr in ((blk.succs[0], True), (blk.succs[1], False)):
+                if s_ is not None:
+                    dfs(s_, blocks + [b], lits + [(b, t["cond"], tr)], seen | {b})
+        else:
+            for s_ in cfg.succs(f, b):
+                dfs(s_, blocks + [b], lits, seen | {b})
+    dfs(start, [], [], set())
+    if not paths:
+        raise AnalysisBroken("%s: no path to the conversion" % arch)
+    sym_paths = []
+    support = set(B.SUPPORT[arch])
+    try:
+        for blocks, lits in paths:
+            env = bits.Env(f)
+            conds = []
+            litmap = {b_: (c_, tr_) for (b_, c_, tr_) in lits}
+            for b_ in blocks[:-1]:
+                env.run_block(f.blocks[b_])
+                if b_ in litmap:
+                    c_, tr_ = litmap[b_]
+                    t_ = _sym_cond(env, c_)
+                    if _cond_deps(t_) and all(d == ("V", "is_encoder") for d in _cond_deps(t_)):
+                        continue            # direction select, not part of the detection
+                    conds.append((t_, tr_))
+                    support |= {d for d in _cond_deps(t_) if d[0] == "B"}
+                    if any(d[0] != "B" for d in _cond_deps(t_)):
+                        raise AnalysisBroken("%s: detection depends on %s, not only on the instruction bytes" % (
+                            arch, sorted(d for d in _cond_deps(t_) if d[0] != "B")[:2]))
+            sym_paths.append(conds)
+    except bits.Unsupported as e_:
+        raise AnalysisBroken("%s: detection predicate uses a construct the bit evaluator cannot follow: %s" % (arch, e_))
+    support = sorted(support)
+    if len(support) > 18:
+        raise AnalysisBroken("%s: detection predicate depends on %d instruction bits" % (arch, len(support)))
+    bad = None
+    n = 0
+    for vals in itertools.product((0, 1), repeat=len(support)):
+        asg = dict(zip(support, vals))
+        try:
+            got = any(all(_cond_value(t_, asg) == tr_ for (t_, tr_) in conds) for conds in sym_paths)
+        except bits.Unsupported as e_:
+            raise AnalysisBroken("%s: %s" % (arch, e_))
+        b4 = [0, 0, 0, 0]
+        for (sym, v) in asg.items():
+            if v and sym[1] < 4:
+                b4[sym[1]] |= 1 << sym[2]
+        n += 1
+        if got != ref(b4) and bad is None:
+            bad = (b4, got)
+    return bad, support, n
+
+
 def check_opc(ck, prog):
     ck.rule("C15-OPC", "instruction detection predicates equal the reference over all byte values they read")
     total = 0
     for arch, ref in (("arm", B.arm), ("armthumb", B.armthumb), ("powerpc", B.powerpc), ("sparc", B.sparc)):
         f = prog.fn(arch + "_code", arch + ".c")
-        # the detection predicate: the condition(s) between the loop body entry and the block that reads src
-        start = loop_body_entry(f)
-        # target: block defining `src`
-        tgt = None
-        for b, i, e in f.iter_elems():
-            if e.get("k") == "decl" and e["n"] == "src":
-                tgt = b.id
-        if start is None or tgt is None:
-            raise AnalysisBroken("%s: loop/conversion structure not recognised" % arch)
-        paths = path_predicates(f, start, tgt)
-        offs = set()
-        for p in paths:
-            for (c, tr) in p:
-                offs |= byte_atoms(f, c)
-        offs = sorted(offs)
-        bad = None
-        n = 0
-        for vals in itertools.product(range(256), repeat=len(offs)):
-            env = dict(zip(offs, vals))
-            got = any(all(bool(eval_cond(c, env)) == tr for (c, tr) in p) for p in paths)
-            b4 = [0, 0, 0, 0]
-            for o, v in env.items():
-                b4[o] = v
-            n += 1
-            if got != ref(b4) and bad is None:
-                bad = (b4, got)
-        total += n
-        ck.ob("C15-OPC", arch, bad is None and bool(paths), common.where(f),
-              "%s: predicate over bytes %s equals the reference on all %d value combinations" % (arch, offs, n)
-              if bad is None else "%s: bytes %s are %s by the code but %s by the ISA reference" % (
+        res = opc_generic(f, arch, ref)
+        total += res[2]
+        bad, support = res[0], res[1]
+        ck.ob("C15-OPC", arch, bad is None, common.where(f),
+              "%s: detection predicate (symbolic bit evaluation of the path conditions up to the first store) equals the "
+              "ISA reference on all %d assignments of the %d instruction bits it or the reference depends on" % (
+                  arch, res[2], len(support))
+              if bad is None else "%s: instruction bytes %s are %s by the code but %s by the ISA reference" % (
                   arch, [hex(x) for x in bad[0]], "converted" if bad[1] else "skipped",
                   "skipped" if bad[1] else "converted"), key="OPC:" + arch)
     # x86 opcode and MS-byte sets, and the prev_mask gate, from the path conditions
@@ -343,6 +453,8 @@ def check_opc(ck, prog):
                 if ex.show(l) == "dest" and r is not None and "now_pos" in ex.show(r):
                     consts = [abs(ex.const_val(x)) for x in ex.walk(r) if x.get("k") == "const"]
                     found.add(sum(consts))
+        if not found:
+            raise AnalysisBroken("%s: `dest = ... now_pos ...` not found (conversion code has an unknown shape)" % arch)
         ck.ob("C15-OPC", "pc-bias:" + arch, found == {bias}, common.where(f),
               "%s: pc = now_pos + i + %s (reference %d)" % (arch, sorted(found), bias), key="OPC:pc-bias:" + arch)
     ck.extra["predicate_evaluations"] = total
